@@ -101,9 +101,9 @@ def observe (a : DatasetArgs) (r : List Ev × Except Err PPath) : Obs :=
     returned := match r.2 with | .ok p => [p.render] | .error _ => [],
     calls := callsOf r.1,
     seenFilelist := if (callsOf r.1).isEmpty then none else (filelistOf r.1).map fileText,
-    packageOk := match packageOf r.1 with
+    packageOk := !(callsOf r.1).isEmpty && (match packageOf r.1 with
       | some fs => decide (a.row.runner ∈ fs) && a.row.fileNames.all (· ∈ fs) && (filelistOf r.1).isSome
-      | none => false,
+      | none => false),
     pulled := pulledOf r.1,
     delivered := match r.2 with | .ok p => decide (p ∈ copiesOf r.1) | .error _ => false,
     runDirLive := liveAtWork 0 r.1,
@@ -272,5 +272,32 @@ def Spec (a : DatasetArgs) (q : QueryFacts) (fs : FsFacts) (o : Outcome) (ob : O
 
 instance (a : DatasetArgs) (q : QueryFacts) (fs : FsFacts) (o : Outcome) (ob : Obs) : Decidable (Spec a q fs o ob) := by
   unfold Spec; exact inferInstance
+
+
+/-! ### shape of a trace, well-formedness of a table row -/
+
+inductive Kind where
+  | tmpCreate | package | filelist | run | pulled | copy | tmpRemove
+deriving DecidableEq, Repr
+
+def Ev.kind : Ev → Kind
+  | .tmpCreate => .tmpCreate | .package _ => .package | .filelist _ => .filelist | .run _ => .run
+  | .pulled _ => .pulled | .copy _ => .copy | .tmpRemove => .tmpRemove
+
+/-- the steps between creation and removal of the temporary directory, in order -/
+def steps : List Kind := [.package, .filelist, .run, .pulled, .copy]
+
+/-- What the Python side relies on in a backend's row: the main script is part of the package;
+the script leaves its result under the name the translator reports, in the directory mounted for
+results, and reads the file list under the name `execute_result_async` writes; cache volumes are
+mounted at absolute paths away from the three fixed mounts, and every cache directory the script
+uses is among them. -/
+def RowOk (r : BackendRow) : Prop :=
+  r.runner ∈ r.fileNames ∧ r.runnerResultName = resultFileName ∧ r.runnerOutputDir = "/results" ∧
+  r.runnerFilelist = "filelist.txt" ∧
+  (∀ v ∈ r.cacheVolumes, v.2.toList.head? = some '/' ∧ stripSlash v.2 ∉ ["/scripts", "/results", "/data", "/"]) ∧
+  (∀ d ∈ r.runnerCacheDirs, d ∈ r.cacheVolumes.map (·.2))
+
+instance (r : BackendRow) : Decidable (RowOk r) := by unfold RowOk; exact inferInstance
 
 end FaxVerif.C17
